@@ -192,7 +192,7 @@ func init() {
 		Plan: []planEntry{
 			{Engine: "A", Scenario: "member", Quick: 48, Thorough: 450},
 		},
-		Rule: "seeded live-cluster runs with membership churn, timeout-now requests injected at wire level at arbitrary nodes (incl. non-voters and nodes being promoted / demoted), leader self-demotion / removal under load; non-trivial if at least 3 membership actions were started and at least one timeout-now was delivered; distinct = distinct abstract trace",
+		Rule: "seeded live-cluster runs with membership churn, timeout-now requests injected at wire level at arbitrary nodes (incl. non-voters and nodes being promoted / demoted), leader self-demotion / removal under load; directed: a follower that holds its own demotion uncommitted is told to time out now; non-trivial if at least 3 membership actions were started and at least one timeout-now was delivered, or a non-voter answered a timeout-now; distinct = distinct abstract trace",
 		Nontrivial: func(st map[string]int64) bool {
 			var acts, tn int64
 			for k, v := range st {
@@ -203,7 +203,7 @@ func init() {
 					tn += v
 				}
 			}
-			return acts >= 3 && tn >= 1
+			return (acts >= 3 && tn >= 1) || st["timeout-now:nonVoter"] >= 1
 		},
 		MinQuick: 14, MinThorough: 150,
 		Counters:     []string{"rounds-completed", "leader-self-demotions-committed", "self-shutdowns-on-removal", "elections", "config-entries", "serve-exits-node-removed"},
@@ -423,6 +423,7 @@ func init() {
 	addPlan("C15", planEntry{Engine: "A", Scenario: "install-crash", Params: "seg=1024", Quick: 8, Thorough: 80})
 	addPlan("C01", planEntry{Engine: "A", Scenario: "late-vote-results", Quick: 6, Thorough: 60})
 	addPlan("C11", planEntry{Engine: "A", Scenario: "late-vote-results", Quick: 4, Thorough: 40})
+	addPlan("C11", planEntry{Engine: "A", Scenario: "uncommitted-demotion-timeout-now", Quick: 4, Thorough: 40})
 	addPlan("C03", planEntry{Engine: "A", Scenario: "slow-fsm", Quick: 6, Thorough: 60})
 	addPlan("C09", planEntry{Engine: "A", Scenario: "slow-fsm", Quick: 4, Thorough: 40})
 	addPlan("C02", planEntry{Engine: "A", Scenario: "grown-cluster", Quick: 6, Thorough: 60})
